@@ -59,6 +59,9 @@ func main() {
 				for _, mr := range an.MapRanges(f, nil) {
 					fmt.Printf("%-22s %s %s range %s :: %s\n", mr.Class, ctx.Position(mr.Stmt.Pos()), f.Name, an.Src(ctx.Fset, mr.Stmt.X), mr.Reason)
 				}
+				for _, sv := range an.StaleLoopVars(f) {
+					fmt.Printf("STALEVAR %s %s var=%s read=%s\n", ctx.Position(sv.Set.Pos()), f.Name, sv.Var.Name(), ctx.Position(sv.Read.Pos()))
+				}
 				for _, sc := range an.SortComparators(f) {
 					fmt.Printf("SORT %s %s %s\n", ctx.Position(sc.Call.Pos()), f.Name, sc.Problem)
 				}
